@@ -31,4 +31,10 @@ def fmtD (x : SRat) : List Char :=
   let n := x.2.floor.toNat
   (if x.1 && n != 0 then ['-'] else []) ++ natDigits n
 
+/-- `sep.join(parts)` -/
+def strJoin (sep : List Char) : List (List Char) → List Char
+  | [] => []
+  | [x] => x
+  | x :: y :: r => x ++ sep ++ strJoin sep (y :: r)
+
 end PdfVerif.Convert
